@@ -621,6 +621,27 @@ func (c *Ctx) paramsKind(pk *packages.Package, e ast.Expr) string {
 					continue
 				}
 				if len(s.Lhs) == len(s.Rhs) {
+					// a map literal whose keys are constants other than "inline" carries document parameters
+					if cl, ok := ast.Unparen(s.Rhs[i]).(*ast.CompositeLit); ok {
+						if _, isMap := info.TypeOf(cl).Underlying().(*types.Map); isMap && len(cl.Elts) > 0 {
+							plain := true
+							for _, el := range cl.Elts {
+								kv, ok := el.(*ast.KeyValueExpr)
+								if !ok {
+									plain = false
+									break
+								}
+								tv, ok := info.Types[kv.Key]
+								if !ok || tv.Value == nil || tv.Value.ExactString() == `"inline"` {
+									plain = false
+								}
+							}
+							if plain {
+								kinds["own"] = true
+								continue
+							}
+						}
+					}
 					kinds[classify(c.Ev.Expr(pk, s.Rhs[i]))] = true
 				} else if len(s.Rhs) == 1 && isCall(info, s.Rhs[0], load.ParseMod+".Mediatype") != nil {
 					kinds["own"] = true
